@@ -70,6 +70,13 @@ def run(tier):
                     L.rec_write(rec, f, key2, False, wd)
             except OverflowError:
                 continue
+        # more than 255 components: the entry MAC is chained from the 1-based entry index as a 128-bit big-endian number
+        big = L.Bf3File({}, [L.mk_comp({}, bytes([1 + (j % 255)])) for j in range(258 if tier == "quick" else 300)])
+        L.rec_to_binary(rec, big, 5, L.gen_key(r), _cost=60)
+        # encrypted components whose declared length was not given explicitly
+        for n in (7, 16, 20):
+            f = L.Bf3File({}, [L.mk_comp({0xC2: b"\x02"}, L.gen_payload(r, n), None, True), L.gen_plain_comp(r)])
+            L.rec_to_binary(rec, f, 5, L.gen_key(r))
         # BEC2 framing: header + body at offset = header length
         rcpts = G.Recipients(orc, r, 1)
         for j in range(60 if tier == "quick" else 300):
